@@ -19,4 +19,4 @@ CONSTANTS
   NarrowSels <- NoNarrow
   KeyFam <- Fam
 INVARIANTS Inv_C01 Inv_C13 Inv_IssueRel EmitScenario
-CHECK_DEADLOCK FALSE
+CHECK_DEADLOCK TRUE
